@@ -2,14 +2,18 @@
   Model/DedupFilter.lean — pkg/block/fetcher.go: DefaultDeduplicateFilter.Filter / filterGroup /
   contains (C31).
 
-  A block is (ULID, compaction-group key, Compaction.Sources).  ULIDs are natural numbers (ULID
-  comparison is the big-endian comparison of 16 bytes), group keys are numbers handed out by the
+  A block is (ULID, compaction-group key, level, Compaction.Sources).  A ULID is (timestamp,
+  entropy): `ULID.Compare` is the big-endian comparison of 16 bytes = the lexicographic order of
+  that pair; `id` is the number that names the ULID in the protocol lines (the harness encodes
+  `id = time * 1000 + entropy`), injective in the pair.  Group keys are numbers handed out by the
   harness for the distinct `Thanos.GroupKey()` strings.
 -/
 namespace Thanos.DedupFilter
 
 structure Meta where
   id : Nat
+  utime : Nat          -- ULID.Time()
+  uent : Nat           -- ULID entropy
   group : Nat
   level : Nat          -- Compaction.Level
   sources : List Nat
@@ -20,10 +24,12 @@ def contains (s1 s2 : List Nat) : Bool := s2.all fun a => s1.contains a
 
 /-- the `sort.Slice` comparator of `filterGroup`: more sources first, then the higher
     compaction level (repair af5d71aa9 of the compact family: a single-block compaction result has
-    the sources of its parent and must win the tie), then ULID ascending -/
+    the sources of its parent and must win the tie), then ULID ascending (`ULID.Compare(…) < 0`: time, then entropy) -/
+def ulidLess (a b : Meta) : Bool := decide (a.utime < b.utime ∨ (a.utime = b.utime ∧ a.uent < b.uent))
+
 def less (a b : Meta) : Bool :=
   if a.sources.length = b.sources.length then
-    (if a.level ≠ b.level then decide (a.level > b.level) else decide (a.id < b.id))
+    (if a.level ≠ b.level then decide (a.level > b.level) else ulidLess a b)
   else decide (a.sources.length > b.sources.length)
 
 def insertMeta (a : Meta) : List Meta → List Meta
@@ -58,5 +64,23 @@ def dupsIn (metas : List Meta) (order : List Nat) : List Nat :=
 def dups (metas : List Meta) : List Nat := dupsIn metas (groupsOf metas)
 
 def kept (metas : List Meta) : List Meta := metas.filter fun m => !(dups metas).contains m.id
+
+-- ---------------------------------------------------------------- a comparator that is NOT a total order
+-- (what a tie-break on `ULID.Time()` alone would be: two ULIDs minted in the same millisecond
+-- compare equal) — used only for the witness `C31_time_only_order_dependent` in Props/C31.lean
+
+def lessT (a b : Meta) : Bool :=
+  if a.sources.length = b.sources.length then
+    (if a.level ≠ b.level then decide (a.level > b.level) else decide (a.utime < b.utime))
+  else decide (a.sources.length > b.sources.length)
+
+def insertMetaT (a : Meta) : List Meta → List Meta
+  | [] => [a]
+  | b :: bs => if lessT a b then a :: b :: bs else b :: insertMetaT a bs
+
+def sortMetasT (l : List Meta) : List Meta := l.foldr insertMetaT []
+
+def dupsT (metas : List Meta) : List Nat :=
+  (groupsOf metas).flatMap fun g => (childLoop (sortMetasT (groupMetas metas g)) [] []).2
 
 end Thanos.DedupFilter
